@@ -497,7 +497,7 @@ class DeferredSender (threading.Thread):
                 if e.errno != EAGAIN:
                   con.msg("DeferredSender/Socket error: " + e.strerror)
                   con.disconnect()
-                  del self._dataForConnection[con]
+                  self._dataForConnection.pop(con, None)
                 break
               except:
                 con.msg("Unknown error doing deferred sending")
@@ -847,8 +847,9 @@ class Connection (EventMixin):
         self.raiseEventNoErrors(ConnectionDown, self)
 
     try:
-      #deferredSender.kill(self)
-      pass
+      # Drop anything still parked for us: the sender thread must not
+      # select() on a socket that is about to be closed
+      deferredSender.kill(self)
     except:
       pass
     try:
